@@ -195,13 +195,30 @@ def r162(ctx, rep):
         raise AnalysisError("spider_geometry: step updates not found")
     g = ctx.func(PUBLIC[3])  # cauchy_geometry
     ok = False
+    # the two spellings of a conditional assignment: x = A if c else B  /  if c: x = A else: x = B
+    forms = []
     for node in ast.walk(g.node):
         if isinstance(node, ast.Assign) and any(isinstance(t, ast.Name) and t.id == "step" for t in node.targets) and isinstance(node.value, ast.IfExp):
-            p = _cmp_parts(node.value.test)
-            if p and p[1] in (">=", ">") and norm(p[0]) == "abs(q_val1)" and norm(p[2]) == "abs(q_val2)" and norm(node.value.body) == "step1" and norm(node.value.orelse) == "step2":
-                ok = True
-            elif p and p[1] in ("<=", "<") and norm(p[0]) == "abs(q_val1)" and norm(p[2]) == "abs(q_val2)" and norm(node.value.body) == "step2" and norm(node.value.orelse) == "step1":
-                ok = True
+            forms.append((node, node.value.test, node.value.body, node.value.orelse))
+        if isinstance(node, ast.If) and len(node.body) == 1 and len(node.orelse) == 1 and all(
+                isinstance(b, ast.Assign) and len(b.targets) == 1 and isinstance(b.targets[0], ast.Name) and b.targets[0].id == "step" for b in (node.body[0], node.orelse[0])):
+            forms.append((node, node.test, node.body[0].value, node.orelse[0].value))
+    # the pairs (step_k, value_k) come from the two solves
+    pairs = {}
+    for node in ast.walk(g.node):
+        if isinstance(node, ast.Assign) and isinstance(node.targets[0], ast.Tuple) and len(node.targets[0].elts) == 2 and all(isinstance(x, ast.Name) for x in node.targets[0].elts) and isinstance(node.value, ast.Call):
+            pairs[node.targets[0].elts[1].id] = node.targets[0].elts[0].id
+    for node, test, b_, o_ in forms:
+        if True:
+            p = _cmp_parts(test)
+            va = vb = None
+            if p and _short(p[0]) == "abs" and _short(p[2]) == "abs" and isinstance(p[0].args[0], ast.Name) and isinstance(p[2].args[0], ast.Name):
+                va, vb = p[0].args[0].id, p[2].args[0].id
+            if va in pairs and vb in pairs and va != vb:
+                if p[1] in (">=", ">") and norm(b_) == pairs[va] and norm(o_) == pairs[vb]:
+                    ok = True
+                elif p[1] in ("<=", "<") and norm(b_) == pairs[vb] and norm(o_) == pairs[va]:
+                    ok = True
             if ok:
                 rep.ok("R16.2", f"{g.local}:{node.lineno} picks the larger |value| of the +/- problems")
             else:
@@ -218,8 +235,21 @@ def r162(ctx, rep):
             if (a, b) in (("step1", "q_val1"), ("step2", "q_val2")):
                 pairs += 1
                 if (a, b) == ("step2", "q_val2"):
-                    args = [norm(x) for x in node.value.args]
-                    if args[:2] == ["-const", "-grad"] and "-curv" in args[2].replace(" ", ""):
+                    from ..valueflow import arg_for
+                    hh = ctx.func(HELPERS[0])
+                    raw = [arg_for(node.value, hh, pn, "plain") for pn in hh.params[:3]]
+                    args = [norm(x) if isinstance(x, ast.AST) else "?" for x in raw]
+                    third = raw[2] if isinstance(raw[2], ast.AST) else None
+                    if isinstance(third, ast.Name):
+                        # a nested function `def neg(x): return -curv(x)`
+                        for d_ in ast.walk(g.node):
+                            if isinstance(d_, ast.FunctionDef) and d_ is not g.node and d_.name == third.id and len(d_.body) >= 1 and isinstance(d_.body[-1], ast.Return) and d_.body[-1].value is not None \
+                                    and all(isinstance(b_, ast.Expr) and isinstance(b_.value, ast.Constant) for b_ in d_.body[:-1]):
+                                third = d_.body[-1].value
+                    elif isinstance(third, ast.Lambda):
+                        third = third.body
+                    neg_curv_ok = isinstance(third, ast.UnaryOp) and isinstance(third.op, ast.USub) and isinstance(third.operand, ast.Call) and norm(third.operand.func) == "curv"
+                    if args[:2] == ["-const", "-grad"] and neg_curv_ok:
                         rep.ok("R16.2", f"{g.local}:{node.lineno} second problem is the negated quadratic (-const, -grad, -curv)")
                     else:
                         rep.bad("R16.2", "negated problem")
